@@ -5,6 +5,9 @@ import PetgraphModel.Spec.Dot
 import PetgraphModel.Proofs.Graph6
 import PetgraphModel.Proofs.Dot
 import PetgraphModel.Extracted.C18
+import PetgraphModel.Proofs.C18W5Round
+import PetgraphModel.Proofs.C18W5Dot
+import PetgraphModel.Driver.C18
 /-
 C18 — graph6 is spec-exact and round-trips; Dot output is well-formed and faithful.
 
@@ -311,5 +314,559 @@ theorem C18_extracted_dot :
     Extracted.C18.INDENT = Dot.INDENT ∧
     Extracted.C18.rankdirValues = [Dot.RankDir.TB, .BT, .LR, .RL].map Dot.RankDir.value :=
   ⟨fun _ => rfl, fun _ => rfl, fun _ => rfl, rfl, rfl⟩
+
+/-! ## wave 5 — the decoder on ARBITRARY strings
+
+`from_graph6_representation` has no error type: it panics or answers.  `G6.decodeClosed` (Model/C18Decode.lean) is its
+behaviour in closed form; the harness exercises it with a malformed-input stream (`decx` lines: truncated strings, bytes
+below 63 and above 126, wrong lengths, long header forms, non-zero padding, arbitrary text). -/
+
+/-- **total characterisation**: for every string, the decoder answers exactly what the closed form says — a panic in the
+four situations (P1)–(P4), otherwise the order read from the size header and the pairs whose bit is set. -/
+theorem C18_decode_total (s : List Char) : G6.decode s = G6.decodeClosed s := G6P.decode_closed s
+
+/-- the exact panic conditions, spelled out: (P1) a character below `'?'` (63); (P2) the empty string; (P3) a first `'~'`
+followed by fewer than three characters; (P4) a size header that is readable but claims more pairs than bits follow. -/
+theorem C18_decode_panics_iff (s : List Char) :
+    G6.decode s = none ↔
+      (∃ c ∈ s, c.toNat < 63) ∨ s = [] ∨ (s.head?.map Char.toNat = some 126 ∧ s.length < 4) ∨
+      ∃ n body, G6.decodeHeader (G6.byteValues s) = some (n, body) ∧ 6 * body.length < n * (n - 1) / 2 := by
+  rw [G6P.decode_none_iff]
+  unfold G6.decodePanics
+  by_cases hlow : ∃ c ∈ s, c.toNat < 63
+  · have : s.any (fun c => decide (c.toNat < 63)) = true := by
+      obtain ⟨c, hc, h⟩ := hlow
+      exact List.any_eq_true.2 ⟨c, hc, by simpa using h⟩
+    simp [this, hlow]
+  · have hany : s.any (fun c => decide (c.toNat < 63)) = false := by
+      rw [Bool.eq_false_iff]
+      intro h
+      obtain ⟨c, hc, h'⟩ := List.any_eq_true.1 h
+      exact hlow ⟨c, hc, by simpa using h'⟩
+    simp only [hany, Bool.false_or, hlow, false_or]
+    cases s with
+    | nil => simp [G6.byteValues, G6.decodeHeader]
+    | cons c0 rest =>
+      have hc0 : ¬ c0.toNat < 63 := fun h => hlow ⟨c0, by simp, h⟩
+      have h63 : (c0.toNat - 63 = 63) ↔ c0.toNat = 126 := by omega
+      simp only [G6.byteValues, List.map_cons, G6.decodeHeader, List.head?_cons, Option.map_some, Option.some.injEq,
+        List.length_cons, reduceCtorEq, false_or]
+      by_cases h126 : c0.toNat = 126
+      · have hb : c0.toNat - 63 = 63 := h63.2 h126
+        simp only [if_true, h126, true_and]
+        match rest with
+        | [] => simp
+        | [_] => simp
+        | [_, _] => simp
+        | c1 :: c2 :: c3 :: body => simp
+      · have hb : ¬ (c0.toNat - 63 = 63) := fun h => h126 (h63.1 h)
+        simp [hb, h126]
+
+example : G6.decode [] = none := by rw [C18_decode_total]; decide
+example : G6.decode ['~', '?', '?'] = none := by rw [C18_decode_total]; decide
+example : G6.decode ['A', ' '] = none := by rw [C18_decode_total]; decide
+example : G6.decode ['C'] = none := by rw [C18_decode_total]; decide
+
+/-- the guard the driver runs on arbitrary input computes the same function -/
+theorem C18_decode_guarded (s : List Char) : G6.decodeGuarded s = G6.decode s := G6P.decodeGuarded_eq s
+
+/-- **the same decoder compiled without overflow checks** (the release profile of the harness): (P1) does not exist there
+— `(c as usize) - N` wraps modulo 2^64, so a byte below 63 contributes the six bits of `code + 1` and is never the
+long-header marker — and the rest is the same closed form: (P2), (P3), (P4) or the order and the pairs whose bit is set. -/
+theorem C18_decode_total_release (s : List Char) :
+    G6.decodeWrap s = G6.decodeClosedBytes (G6.byteValuesWrap s) ∧
+    ∀ c, c < 63 → (c + 18446744073709551616 - 63) % 64 = c + 1 ∧ c + 18446744073709551616 - 63 ≠ 63 :=
+  ⟨G6P.decodeWrap_closed s, G6P.wrapped_byte⟩
+
+/-- the two builds differ on (P1) only: a string without a byte below 63 — every valid graph6 string in particular — is
+decoded alike -/
+theorem C18_decode_release_agrees (s : List Char) (h : ∀ c ∈ s, 63 ≤ c.toNat) : G6.decodeWrap s = G6.decode s := by
+  apply G6P.decodeWrap_eq_decode
+  rw [Bool.eq_false_iff]
+  intro hany
+  obtain ⟨c, hc, hlt⟩ := List.any_eq_true.1 hany
+  have := h c hc
+  simp only [decide_eq_true_eq] at hlt
+  omega
+
+/-- a witness of the difference: one blank in the body — a panic with overflow checks, an answer without -/
+example : G6.decode ['A', ' '] = none ∧ G6.decodeWrap ['A', ' '] = some (2, [(0, 1)]) := by
+  constructor
+  · rw [C18_decode_total]; decide
+  · rw [(C18_decode_total_release _).1]; decide
+
+/-- what the driver runs for the harness's build profile (`ovf=` of the case line) is that profile's decoder -/
+theorem C18_decode_profile (checked : Bool) (s : List Char) :
+    G6.decodeProfile checked s = if checked then G6.decode s else G6.decodeWrap s := by
+  unfold G6.decodeProfile
+  cases checked
+  · simp [G6P.decodeWrapGuarded_eq]
+  · simp [G6P.decodeGuarded_eq]
+
+/-- whatever the decoder answers — on ANY string — is a simple graph on `0..n`: pairs `i < j < n`, none twice, an order
+of at most 18 bits; it is the edge list of some adjacency predicate in the format's order. -/
+theorem C18_decode_wf (s : List Char) (n : Nat) (es : List (Nat × Nat)) (h : G6.decode s = some (n, es)) :
+    (∀ e ∈ es, e.1 < e.2 ∧ e.2 < n) ∧ es.Nodup ∧ n < 262144 ∧
+      ∃ adj : Nat → Nat → Bool, es = Spec.Graph6.edges n adj :=
+  G6P.decode_wf s n es h
+
+/-- "`from_graph6_string` of a valid string rebuilds a graph with exactly those nodes and edges": every valid graph6 string
+— the format's encoding of ANY graph of order ≤ 258047, whether or not an encoder of petgraph produced it — is decoded to
+that order and exactly the pairs `i < j` with `adj i j`; no panic. -/
+theorem C18_decode_valid (n : Nat) (hn : n ≤ 258047) (adj : Nat → Nat → Bool) :
+    G6.decode ((Spec.Graph6.graph6 n adj).map Char.ofNat) = some (n, Spec.Graph6.edges n adj) :=
+  G6V.decode_valid n hn adj
+
+example : G6.decode ((Spec.Graph6.graph6 5 adjEx).map Char.ofNat) = some (5, [(0, 2), (1, 3), (0, 4), (3, 4)]) := by
+  rw [C18_decode_valid 5 (by decide)]; decide
+
+/-- the decoder accepts a strict superset of the format (it is lenient, never an error): surplus bytes, non-zero padding
+bits, the four-byte size header for a small order and characters above 126 (only the low six bits of `code - 63` are
+used) all decode to the graph of the valid string `A_` (two nodes, one edge). -/
+theorem C18_decode_lenient_witness :
+    G6.decode ['A', '_'] = some (2, [(0, 1)]) ∧
+    G6.decode ['A', '_', 'z', 'z'] = some (2, [(0, 1)]) ∧
+    G6.decode ['A', '~'] = some (2, [(0, 1)]) ∧
+    G6.decode ['~', '?', '?', 'A', '_'] = some (2, [(0, 1)]) ∧
+    G6.decode [Char.ofNat 129, Char.ofNat 223] = some (2, [(0, 1)]) := by
+  simp only [C18_decode_total]
+  decide
+
+/-! ## wave 5 — every storage type that implements graph6
+
+`graph6_string()` is the encoder run on the type's `node_identifiers` and `is_adjacent`; those are the fields `ids` and
+`adj` of the C06 table of the storage model (`Model/C06Views.lean`), whose `is_adjacent` clause C06 proves from the
+extracted bit positions and widths (`Extracted/AdjWidth.lean`).  `from_graph6_string` is the decoder followed by the
+type's own construction calls, replayed on the storage model (`Model/C18Views.lean`).  `adj::List` implements neither. -/
+
+/-- the abstract graph of a storage state as the encoder sees it: "some edge reference joins the `p`-th and the `q`-th
+node of `node_identifiers()`" -/
+abbrev absAdj := G6V.absAdj
+
+/-- `Graph<N, E, Undirected, Ix>::graph6_string()`: in every state satisfying the C01 invariant — multi-edges, loops,
+any removal history — the string is the format's encoding of the abstract graph in node-iteration order (the documented
+panic beyond 258047 nodes). -/
+theorem C18_graph6_string_Graph (s : G.State) (h : C01T.Inv s) :
+    G6V.graph6Graph s =
+      if s.nodes.length ≤ 258047
+      then some ((Spec.Graph6.graph6 s.nodes.length (absAdj (Visit.graphTable s))).map Char.ofNat) else none :=
+  G6V.graph6Graph_spec s h
+
+/-- `StableGraph` (vacancies included: the bitmap has `node_bound` columns, the order is `node_count`) -/
+theorem C18_graph6_string_StableGraph (s : SG.State) (h : C02T.Inv s) :
+    G6V.graph6Stable s =
+      if (SG.nodeIndices s).length ≤ 258047
+      then some ((Spec.Graph6.graph6 (SG.nodeIndices s).length (absAdj (Visit.stableTable s))).map Char.ofNat)
+      else none :=
+  G6V.graph6Stable_spec s h
+
+/-- `GraphMap` (`is_adjacent` = `contains_edge`; node order = insertion order with `swap_remove` holes filled) -/
+theorem C18_graph6_string_GraphMap (s : GM.State) (h : C03T.Inv s) :
+    G6V.graph6GraphMap s =
+      if (GM.nodesOf s).length ≤ 258047
+      then some ((Spec.Graph6.graph6 (GM.nodesOf s).length (absAdj (Visit.graphMapTable s))).map Char.ofNat) else none :=
+  G6V.graph6GraphMap_spec s h
+
+/-- `MatrixGraph` (`is_adjacent` = `has_edge` on the stored matrix; removed ids are skipped by `node_identifiers`);
+holds in every state of the model -/
+theorem C18_graph6_string_MatrixGraph (s : Matrix.State) :
+    G6V.graph6Matrix s =
+      if s.nodes.ids.length ≤ 258047
+      then some ((Spec.Graph6.graph6 s.nodes.ids.length (absAdj (Visit.matrixTable s))).map Char.ofNat) else none :=
+  G6V.graph6Matrix_spec s
+
+/-- `Csr` (the bitmap built from `edge_references`, which for `Undirected` lists every edge in both rows — D7 of C06 —
+and therefore sets every bit twice: harmless here); `adjacency_matrix()` does not panic -/
+theorem C18_graph6_string_Csr (s : CsrM.State) (h : C05T.Inv s) (hf : Visit.CsrW2.IxFits s) :
+    G6V.graph6Csr s =
+      if (CsrM.nodeIdentifiers s).length ≤ 258047
+      then some ((Spec.Graph6.graph6 (CsrM.nodeIdentifiers s).length (absAdj (Visit.csrTable s))).map Char.ofNat)
+      else none := by
+  obtain ⟨R, good⟩ := h
+  exact G6V.graph6Csr_spec s R good hf
+
+/-- … hence after EVERY history of public calls (the invariants are those of C01, C02, C03, C05, proved for all histories
+there; `MatrixGraph` needs none): whatever sequence of adds, removals, updates, `retain_*`, `clear*`, … produced the graph,
+`graph6_string()` is the format's encoding of its abstract graph in node-iteration order. -/
+theorem C18_graph6_string_all_histories :
+    (∀ endv directed (ops : List G.Op),
+      let s := (G.run (G.empty endv directed) ops).1
+      G6V.graph6Graph s = G6V.specString (Visit.graphTable s) s.nodes.length) ∧
+    (∀ directed fin noLimit debug (ops : List SG.Op),
+      ∃ s outs, SG.run (SG.empty directed fin noLimit debug) ops = .ok (s, outs) ∧
+        G6V.graph6Stable s = G6V.specString (Visit.stableTable s) (SG.nodeIndices s).length) ∧
+    (∀ directed (ops : List GM.Op),
+      let s := (GM.run (GM.State.empty directed) ops).1
+      G6V.graph6GraphMap s = G6V.specString (Visit.graphMapTable s) (GM.nodesOf s).length) ∧
+    (∀ s0 (ops : List Matrix.Op),
+      let s := (Matrix.run s0 ops).1
+      G6V.graph6Matrix s = G6V.specString (Visit.matrixTable s) s.nodes.ids.length) ∧
+    (∀ d m c dbg n (ops : List CsrM.Op), (m = 0 ∨ n ≤ m) →
+      let s := (CsrM.run (CsrM.withNodes d m c dbg n) ops).1
+      G6V.graph6Csr s = G6V.specString (Visit.csrTable s) (CsrM.nodeIdentifiers s).length) := by
+  refine ⟨?_, ?_, ?_, ?_, ?_⟩
+  · intro endv directed ops
+    exact G6V.graph6Graph_spec _ (C01T.C01_inv_all_histories endv directed ops)
+  · intro directed fin noLimit debug ops
+    obtain ⟨s, outs, h1, h2, _⟩ := C02T.C02_all_histories directed fin noLimit debug ops
+    exact ⟨s, outs, h1, G6V.graph6Stable_spec s h2⟩
+  · intro directed ops
+    exact G6V.graph6GraphMap_spec _ (C03T.C03_all_histories directed ops).1
+  · intro s0 ops
+    exact G6V.graph6Matrix_spec _
+  · intro d m c dbg n ops hfit
+    have h0 := C05T.C05_csr_inv_init d m c dbg n
+    have hix : Visit.CsrW2.IxFits (CsrM.withNodes d m c dbg n) := by
+      unfold Visit.CsrW2.IxFits
+      rcases hfit with h | h
+      · left; exact h
+      · right; simpa [CsrM.withNodes, CsrM.State.nodeCount] using h
+    obtain ⟨R, good, _, _, hf⟩ := Visit.CsrW2.csr_run_facts (CsrProofs.good_withNodes d m c dbg n) h0.2.2 ops hix
+    exact G6V.graph6Csr_spec _ R good hf
+
+/-- what `from_graph6_string` must have built, read off the table of the result (`Proofs/C18W5Built.lean`): undirected,
+`node_identifiers = 0, 1, …, n-1`, `node_count = n`, `edge_count = |es|`, and `edge_references` = the decoded pairs as
+unordered pairs, each `mult` times -/
+abbrev Built := @G6V.Built
+
+/-- the format's string of a decoded graph -/
+abbrev canonical := G6V.canonical
+
+/-- **`Graph::from_graph6_string`**, for EVERY string the decoder accepts and every index type with room (`endv =
+Ix::max()`): the call does not panic, the result satisfies the C01 invariant, its abstract graph is the decoded one
+(nodes `0..n`, exactly the decoded edges), and `graph6_string()` of it is the format's string of that graph. -/
+theorem C18_from_graph6_Graph (endv : Nat) (str : List Char) (n : Nat) (es : List (Nat × Nat))
+    (hd : G6.decode str = some (n, es)) (hfit : n ≤ endv ∧ es.length ≤ endv) :
+    ∃ s, G6V.fromGraph6Graph endv str = some s ∧ C01T.Inv s ∧ Built 1 (Visit.graphTable s) n es ∧
+      (n ≤ 258047 → G6V.graph6Graph s = some (canonical n es)) :=
+  G6V.graph_from_to endv str n es hd hfit
+
+theorem C18_from_graph6_StableGraph (fin : Nat) (noLimit debug : Bool) (str : List Char) (n : Nat)
+    (es : List (Nat × Nat)) (hd : G6.decode str = some (n, es)) (hfit : n ≤ fin ∧ es.length ≤ fin) :
+    ∃ s, G6V.fromGraph6Stable fin noLimit debug str = some s ∧ C02T.Inv s ∧ Built 1 (Visit.stableTable s) n es ∧
+      (n ≤ 258047 → G6V.graph6Stable s = some (canonical n es)) :=
+  G6V.stable_from_to fin noLimit debug str n es hd hfit
+
+theorem C18_from_graph6_GraphMap (str : List Char) (n : Nat) (es : List (Nat × Nat))
+    (hd : G6.decode str = some (n, es)) :
+    ∃ s, G6V.fromGraph6GraphMap str = some s ∧ C03T.Inv s ∧ Built 1 (Visit.graphMapTable s) n es ∧
+      (n ≤ 258047 → G6V.graph6GraphMap s = some (canonical n es)) :=
+  G6V.graphMap_from_to str n es hd
+
+theorem C18_from_graph6_MatrixGraph (ixMax : Nat) (str : List Char) (n : Nat) (es : List (Nat × Nat))
+    (hd : G6.decode str = some (n, es)) (hfit : n ≤ ixMax) :
+    ∃ s g, G6V.fromGraph6Matrix ixMax str = some s ∧ C04T.Inv s ∧ C04T.R s g ∧ Built 1 (Visit.matrixTable s) n es ∧
+      (n ≤ 258047 → G6V.graph6Matrix s = some (canonical n es)) :=
+  G6V.matrix_from_to ixMax str n es hd hfit
+
+/-- `Csr`: `edge_references()` of the result lists every decoded edge once per direction (`mult = 2`: open finding D7 of
+C06), `edge_count()` counts each once -/
+theorem C18_from_graph6_Csr (modulus cutoff : Nat) (debug : Bool) (str : List Char) (n : Nat) (es : List (Nat × Nat))
+    (hd : G6.decode str = some (n, es)) (hfit : modulus = 0 ∨ n ≤ modulus) :
+    ∃ s, G6V.fromGraph6Csr modulus cutoff debug str = some s ∧ C05T.Inv s ∧ Visit.CsrW2.IxFits s ∧
+      Built 2 (Visit.csrTable s) n es ∧ (n ≤ 258047 → G6V.graph6Csr s = some (canonical n es)) :=
+  G6V.csr_from_to modulus cutoff debug str n es hd hfit
+
+/-- **when `from_graph6_string` panics**, per type: exactly when the decoder panics (`C18_decode_panics_iff`) or the index
+type is too small for the decoded graph (the documented capacity panics of `add_node` / `add_edge`). -/
+theorem C18_from_graph6_panics (str : List Char) :
+    (∀ endv, G6V.fromGraph6Graph endv str = none ↔
+      G6.decode str = none ∨ ∃ n es, G6.decode str = some (n, es) ∧ ¬ (n ≤ endv ∧ es.length ≤ endv)) ∧
+    (∀ fin noLimit debug, G6V.fromGraph6Stable fin noLimit debug str = none ↔
+      G6.decode str = none ∨ ∃ n es, G6.decode str = some (n, es) ∧ ¬ (n ≤ fin ∧ es.length ≤ fin)) ∧
+    (G6V.fromGraph6GraphMap str = none ↔ G6.decode str = none) ∧
+    (∀ ixMax, G6V.fromGraph6Matrix ixMax str = none ↔
+      G6.decode str = none ∨ ∃ n es, G6.decode str = some (n, es) ∧ ¬ n ≤ ixMax) ∧
+    (∀ modulus cutoff debug, G6V.fromGraph6Csr modulus cutoff debug str = none ↔
+      G6.decode str = none ∨ ∃ n es, G6.decode str = some (n, es) ∧ ¬ (modulus = 0 ∨ n ≤ modulus)) :=
+  ⟨fun e => G6V.graph_panics_iff e str, fun f nl dbg => G6V.stable_panics_iff f nl dbg str, G6V.graphMap_panics_iff str,
+    fun i => G6V.matrix_panics_iff i str, fun m c dbg => G6V.csr_panics_iff m c dbg str⟩
+
+/-- **string round trip through every storage type**: for every valid graph6 string — the format's encoding of any
+graph `(n, adj)` of order ≤ 258047 that fits the index type — `from_graph6_string` followed by `graph6_string()` returns
+the string itself, in all five types. -/
+theorem C18_string_roundtrip (n : Nat) (hn : n ≤ 258047) (adj : Nat → Nat → Bool) :
+    let str := (Spec.Graph6.graph6 n adj).map Char.ofNat
+    let m := (Spec.Graph6.edges n adj).length
+    (∀ endv, n ≤ endv ∧ m ≤ endv →
+      ∃ s, G6V.fromGraph6Graph endv str = some s ∧ G6V.graph6Graph s = some str) ∧
+    (∀ fin noLimit debug, n ≤ fin ∧ m ≤ fin →
+      ∃ s, G6V.fromGraph6Stable fin noLimit debug str = some s ∧ G6V.graph6Stable s = some str) ∧
+    (∃ s, G6V.fromGraph6GraphMap str = some s ∧ G6V.graph6GraphMap s = some str) ∧
+    (∀ ixMax, n ≤ ixMax → ∃ s, G6V.fromGraph6Matrix ixMax str = some s ∧ G6V.graph6Matrix s = some str) ∧
+    (∀ modulus cutoff debug, modulus = 0 ∨ n ≤ modulus →
+      ∃ s, G6V.fromGraph6Csr modulus cutoff debug str = some s ∧ G6V.graph6Csr s = some str) := by
+  intro str m
+  have hd : G6.decode str = some (n, Spec.Graph6.edges n adj) := G6V.decode_valid n hn adj
+  have hc : canonical n (Spec.Graph6.edges n adj) = str := G6V.canonical_valid n adj
+  refine ⟨?_, ?_, ?_, ?_, ?_⟩
+  · intro endv hfit
+    obtain ⟨s, h1, _, _, h4⟩ := G6V.graph_from_to endv str n _ hd hfit
+    exact ⟨s, h1, (h4 hn).trans (congrArg some hc)⟩
+  · intro fin nl dbg hfit
+    obtain ⟨s, h1, _, _, h4⟩ := G6V.stable_from_to fin nl dbg str n _ hd hfit
+    exact ⟨s, h1, (h4 hn).trans (congrArg some hc)⟩
+  · obtain ⟨s, h1, _, _, h4⟩ := G6V.graphMap_from_to str n _ hd
+    exact ⟨s, h1, (h4 hn).trans (congrArg some hc)⟩
+  · intro ixMax hfit
+    obtain ⟨s, g, h1, _, _, _, h4⟩ := G6V.matrix_from_to ixMax str n _ hd hfit
+    exact ⟨s, h1, (h4 hn).trans (congrArg some hc)⟩
+  · intro md c dbg hfit
+    obtain ⟨s, h1, _, _, _, h4⟩ := G6V.csr_from_to md c dbg str n _ hd hfit
+    exact ⟨s, h1, (h4 hn).trans (congrArg some hc)⟩
+
+/-- non-vacuity: the running example `DQc` (order 5, edges 0-2, 0-4, 1-3, 3-4) through `Graph<_, _, _, u8>` and back; with
+an index type of four values the call panics -/
+example : ∃ s, G6V.fromGraph6Graph 255 ['D', 'Q', 'c'] = some s ∧ G6V.graph6Graph s = some ['D', 'Q', 'c'] := by
+  have e : (Spec.Graph6.graph6 5 adjEx).map Char.ofNat = ['D', 'Q', 'c'] := by decide
+  have := (C18_string_roundtrip 5 (by decide) adjEx).1 255 (by decide)
+  simp only [e] at this
+  exact this
+
+example : G6V.fromGraph6Graph 4 ['D', 'Q', 'c'] = none := by
+  have hd : G6.decode ['D', 'Q', 'c'] = some (5, [(0, 2), (1, 3), (0, 4), (3, 4)]) := by
+    rw [C18_decode_total]; decide
+  exact ((C18_from_graph6_panics _).1 4).2 (Or.inr ⟨_, _, hd, by decide⟩)
+
+/-- … and through `StableGraph<_, _, _, u16>`, `GraphMap`, `MatrixGraph<.., u16>` and `Csr<_, _, _, u32>` -/
+example :
+    (∃ s, G6V.fromGraph6Stable 65535 false true ['D', 'Q', 'c'] = some s ∧ G6V.graph6Stable s = some ['D', 'Q', 'c']) ∧
+    (∃ s, G6V.fromGraph6GraphMap ['D', 'Q', 'c'] = some s ∧ G6V.graph6GraphMap s = some ['D', 'Q', 'c']) ∧
+    (∃ s, G6V.fromGraph6Matrix 65535 ['D', 'Q', 'c'] = some s ∧ G6V.graph6Matrix s = some ['D', 'Q', 'c']) ∧
+    (∃ s, G6V.fromGraph6Csr 4294967296 32 true ['D', 'Q', 'c'] = some s ∧ G6V.graph6Csr s = some ['D', 'Q', 'c']) := by
+  have e : (Spec.Graph6.graph6 5 adjEx).map Char.ofNat = ['D', 'Q', 'c'] := by decide
+  have h := C18_string_roundtrip 5 (by decide) adjEx
+  simp only [e] at h
+  exact ⟨h.2.1 65535 false true (by decide), h.2.2.1, h.2.2.2.1 65535 (by decide),
+    h.2.2.2.2 4294967296 32 true (Or.inr (by decide))⟩
+
+/-! ## wave 5 — `Dot` with arbitrary attribute-getter strings
+
+`Dot::with_attr_getters` writes what the getters return VERBATIM (`C18_dot_lines`: `… label? attr "]\n"`); petgraph
+neither escapes nor checks it.  The grammar consequence: the text is the expected DOT graph exactly as long as every
+getter string is an `a_list` fragment (`Spec.Dot.attrFrag`); an arbitrary string can close the bracket and inject
+statements. -/
+
+/-- **`C18_dot_parse` for arbitrary getter strings**: for every graph, edge type, `Config` list, format spec, whatever the
+weights print and whatever the getters return — as long as each returned string is an `a_list` fragment
+(`( ID '=' (ID | "string") [;,] )*`, ending between tokens or in a name) — the DOT lexer and statement parser accept the
+text, and its statements are exactly: the `rankdir` attribute if configured, one node statement per node reference, one
+edge statement per edge reference with the connector of the edge type, each carrying its label (if any) followed by
+exactly the attribute pairs of its getter string. -/
+theorem C18_dot_parse_getters (configs : List Dot.Config) (f : Dot.Fmt) (g : Dot.GraphView) (h : DotP.GetterOK g) :
+    let c := Dot.Configs.extract configs
+    Spec.Dot.parse (Dot.dot configs f g) =
+      some ⟨if c.GraphContentOnly then none else some g.directed,
+        DotP.rankStmts c ++ g.nodes.map (DotP.nodeStmtOfG c f) ++
+          (DotP.enumFrom 0 g.edges).map (DotP.edgeStmtOfG c f g.directed)⟩ :=
+  DotP.dot_parse_getters (Dot.Configs.extract configs) f g h
+
+/-- … and what such a statement is: ID(s) as in `C18_dot_ids`, attributes = label (as in `C18_dot_labels`) ++ the getter's
+pairs; with empty getter strings these are the statements of `C18_dot_parse`. -/
+theorem C18_dot_getter_stmts (c : Dot.Configs) (f : Dot.Fmt) (d : Bool) (n : Dot.NodeRef) (p : Nat × Dot.EdgeRef) :
+    DotP.nodeStmtOfG c f n =
+      .node (Dot.decimal n.index) (DotP.labelAttrs (DotP.nodeLabel c f n) ++ (Spec.Dot.attrFrag n.attr).getD []) ∧
+    DotP.edgeStmtOfG c f d p =
+      .edge (Dot.decimal p.2.source) d (Dot.decimal p.2.target)
+        (DotP.labelAttrs (DotP.edgeLabel c f p.1 p.2) ++ (Spec.Dot.attrFrag p.2.attr).getD []) ∧
+    (n.attr = [] → DotP.nodeStmtOfG c f n = DotP.nodeStmtOf c f n) ∧
+    (p.2.attr = [] → DotP.edgeStmtOfG c f d p = DotP.edgeStmtOf c f d p) := by
+  refine ⟨rfl, rfl, ?_, ?_⟩
+  · intro h; simp [DotP.nodeStmtOfG, DotP.nodeStmtOf, h, DotP.attrFrag_nil]
+  · intro h; simp [DotP.edgeStmtOfG, DotP.edgeStmtOf, h, DotP.attrFrag_nil]
+
+/-- a graph whose getters return non-trivial fragments: quoted strings holding an escaped quote, a bracket, a raw line
+break and non-ASCII text; separators; a name that ends the string -/
+def exGetters : Dot.GraphView :=
+  { directed := false
+    nodes := [{ index := 0, weight := ⟨fun _ _ => ['"']⟩,
+                attr := "tooltip=\"q\\\"uote ]\n9 [\" ; färbe=rot, w=1.5".toList },
+              { index := 1, weight := ⟨fun _ _ => []⟩, attr := "color=red".toList }]
+    edges := [{ source := 1, target := 0, weight := ⟨fun _ _ => ['\\']⟩, attr := "k=\"\" ".toList }] }
+
+example : DotP.GetterOK exGetters := by
+  constructor <;> intro x hx <;> simp [exGetters] at hx
+  · rcases hx with rfl | rfl <;> decide
+  · subst hx; decide
+
+example : (Spec.Dot.parse (Dot.dot [] ⟨.display, false⟩ exGetters)).map (·.stmts.length) = some 3 := by
+  rw [C18_dot_parse_getters _ _ _ (by
+    constructor <;> intro x hx <;> simp [exGetters] at hx
+    · rcases hx with rfl | rfl <;> decide
+    · subst hx; decide)]
+  rfl
+
+/-- one node whose getter returns `] 9 [ ` -/
+def exInjection : Dot.GraphView :=
+  { directed := true, nodes := [{ index := 0, weight := ⟨fun _ _ => ['a']⟩, attr := "]\n    9 [ ".toList }], edges := [] }
+
+/-- **without the condition the statement is false** (petgraph does not escape getter output): a getter string that is not
+an `a_list` fragment can close the bracket and inject a statement — one node reference, two node statements. -/
+theorem C18_dot_getter_injection_witness :
+    Spec.Dot.attrFrag (exInjection.nodes.map (·.attr)).head! = none ∧
+    exInjection.nodes.length = 1 ∧
+    (Spec.Dot.parse (Dot.dot [] ⟨.display, false⟩ exInjection)).map (fun p => p.stmts.map fun s =>
+        match s with | .node a _ => some a | _ => none) = some [some ['0'], some ['9']] := by
+  decide
+
+/-! ## wave 5 — the acceptance test of a `dot` line is sound
+
+The driver accepts a `dot` line iff `C18.dotAcceptB`: the `iter` line (what `node_references()` / `edge_references()`
+yield) lists exactly the graph of the `graph` line, every getter string is an `a_list` fragment, and the text equals the
+printer model's text for that view.  The statement-comparison code (`C18.judgeDot`) no longer decides acceptance. -/
+
+/-- **accepted ⇒ the text is the printer's image of that graph**, and hence a well-formed DOT text with exactly the
+statements of that graph: the view lists exactly the (index, weight) pairs and the (source, target, weight) triples the
+harness built (an undirected edge in either orientation), the text is `Dot.dot` of the view character for character, and
+it parses to the header the edge type asks for and exactly the view's statements. -/
+theorem C18_dot_accept_sound (W : C18.WTable) (directed : Bool) (tn : List (Nat × Nat)) (te : List (Nat × Nat × Nat))
+    (itNodes : List (Nat × Nat × List Char)) (itEdges : List (Nat × Nat × Nat × List Char)) (withAttrs : Bool)
+    (configs : List Dot.Config) (fmt : Dot.Fmt) (text : List Char)
+    (h : C18.dotAcceptB W directed tn te itNodes itEdges withAttrs configs fmt text = true) :
+    let g := C18.viewOf W directed itNodes itEdges withAttrs
+    let c := Dot.Configs.extract configs
+    (itNodes.map fun x => (x.1, x.2.1)).Perm tn ∧
+    (itEdges.map fun x => C18.orient directed (x.1, x.2.1, x.2.2.1)).Perm (te.map (C18.orient directed)) ∧
+    text = Dot.dot configs fmt g ∧
+    Spec.Dot.parse text =
+      some ⟨if c.GraphContentOnly then none else some directed,
+        DotP.rankStmts c ++ g.nodes.map (DotP.nodeStmtOfG c fmt) ++
+          (DotP.enumFrom 0 g.edges).map (DotP.edgeStmtOfG c fmt directed)⟩ := by
+  intro g c
+  unfold C18.dotAcceptB at h
+  simp only [Bool.and_eq_true] at h
+  obtain ⟨⟨⟨h1, h2⟩, h3⟩, h4⟩ := h
+  have htext : text = Dot.dot configs fmt g := eq_of_beq h4
+  have hget : DotP.GetterOK g := by
+    unfold C18.getterOkB at h3
+    simp only [Bool.and_eq_true, List.all_eq_true] at h3
+    exact ⟨h3.1, h3.2⟩
+  refine ⟨List.isPerm_iff.1 h1, List.isPerm_iff.1 h2, htext, ?_⟩
+  rw [htext]
+  exact C18_dot_parse_getters configs fmt g hget
+
+/-- non-vacuity: an undirected graph whose edge `edge_references()` reports in the other orientation, a weight that prints a
+quote, a getter string; the printer's text is accepted -/
+example :
+    C18.dotAcceptB #[#[some ['"'], some ['"']]] false [(0, 0), (2, 0)] [(0, 2, 0)]
+      [(0, 0, "color=red".toList), (2, 0, [])] [(2, 0, 0, "k=\"]\" ".toList)] true [.EdgeNoLabel] ⟨.display, false⟩
+      (Dot.dot [.EdgeNoLabel] ⟨.display, false⟩
+        (C18.viewOf #[#[some ['"'], some ['"']]] false [(0, 0, "color=red".toList), (2, 0, [])]
+          [(2, 0, 0, "k=\"]\" ".toList)] true)) = true := by
+  decide
+
+/-! ## run-time checks of the hypotheses
+
+Every hypothesis of the theorems above that concerns the concrete case is an executable Boolean of
+`Driver/C18Checks.lean` / `Driver/C18.lean` which the driver evaluates on every case it judges; a failing check is a
+`SPECFAIL side condition …` (something the implementation must guarantee) or a `SPECFAIL generator left the proved
+range …` (something only the generated input must respect). -/
+
+/-- `orderOkB` ⇒ the order hypothesis of `C18_decode_encode`, `C18_graph6_of_bitmap`, `C18_header_matches_format`, … -/
+theorem C18_order_check (n : Nat) (h : C18.orderOkB n = true) : n ≤ 258047 := by
+  simpa [C18.orderOkB] using h
+
+theorem strictlyAsc_pairwise (es : List (Nat × Nat)) (h : C18.strictlyAscB es = true) :
+    es.Pairwise fun p q => C18.pairLt p q = true := by
+  have trans : ∀ p q r : Nat × Nat, C18.pairLt p q = true → C18.pairLt q r = true → C18.pairLt p r = true := by
+    intro p q r h1 h2
+    simp only [C18.pairLt, Bool.or_eq_true, Bool.and_eq_true, decide_eq_true_eq, beq_iff_eq] at h1 h2 ⊢
+    omega
+  induction es with
+  | nil => exact List.Pairwise.nil
+  | cons p rest ih =>
+    cases rest with
+    | nil => exact List.pairwise_singleton _ _
+    | cons q r =>
+      simp only [C18.strictlyAscB, Bool.and_eq_true] at h
+      have ih' := ih h.2
+      refine List.Pairwise.cons ?_ ih'
+      intro x hx
+      rcases List.mem_cons.1 hx with rfl | hx
+      · exact h.1
+      · exact trans p q x h.1 ((List.pairwise_cons.1 ih').1 x hx)
+
+/-- `truthSimpleB` ⇒ the `truth` line is a simple graph on `0..n`: pairs `a < b < n`, none twice (the quantifier of the
+property: "for every simple undirected graph") -/
+theorem C18_truth_simple_check (n : Nat) (es : List (Nat × Nat)) (h : C18.truthSimpleB n es = true) :
+    (∀ e ∈ es, e.1 < e.2 ∧ e.2 < n) ∧ es.Nodup := by
+  simp only [C18.truthSimpleB, Bool.and_eq_true, List.all_eq_true, decide_eq_true_eq] at h
+  refine ⟨h.1, ?_⟩
+  refine (strictlyAsc_pairwise es h.2).imp ?_
+  intro p q hlt heq
+  subst heq
+  simp [C18.pairLt] at hlt
+
+/-- the adjacency the judge derives from the `truth` line is symmetric (the hypothesis of `C18_roundtrip_adjacency`) -/
+theorem C18_truth_adjacency_symmetric (a b : Nat) : C18.normPair a b = C18.normPair b a := by
+  unfold C18.normPair
+  by_cases h1 : a ≤ b <;> by_cases h2 : b ≤ a <;> simp [h1, h2]
+  · have : a = b := by omega
+    subst this; exact ⟨rfl, rfl⟩
+  · omega
+
+/-- `bitmapRangeB` ⇒ the hypotheses `hes`, `hix` of `C18_graph6_of_bitmap` / `C18_adjacency_matrix` -/
+theorem C18_bitmap_range_check (w : Nat) (es : List (Nat × Nat)) (ix : List Nat) (h : C18.bitmapRangeB w es ix = true) :
+    (∀ e ∈ es, e.1 < w ∧ e.2 < w) ∧ (∀ i ∈ ix, i < w) := by
+  simpa [C18.bitmapRangeB, List.all_eq_true] using h
+
+/-- `fitsB` ⇒ the capacity hypotheses `hfit` of `C18_from_graph6_*` and `C18_string_roundtrip`, for the parameters the
+replay uses (`endv = fin = ixMax = 2^bits - 1`; `modulus = 2^bits`, `0` for `usize`) -/
+theorem C18_fits_check (bits n m : Nat) :
+    (C18.fitsB "graph" bits n m = true → n ≤ 2 ^ bits - 1 ∧ m ≤ 2 ^ bits - 1) ∧
+    (C18.fitsB "stable" bits n m = true → n ≤ 2 ^ bits - 1 ∧ m ≤ 2 ^ bits - 1) ∧
+    (C18.fitsB "matrix" bits n m = true → n ≤ 2 ^ bits - 1) ∧
+    (C18.fitsB "csr" bits n m = true →
+      (if bits == 64 then 0 else 2 ^ bits) = 0 ∨ n ≤ (if bits == 64 then 0 else 2 ^ bits)) := by
+  refine ⟨?_, ?_, ?_, ?_⟩
+  · intro h; simpa [C18.fitsB] using h
+  · intro h; simpa [C18.fitsB] using h
+  · intro h; simpa [C18.fitsB] using h
+  · intro h
+    simp only [C18.fitsB, Bool.or_eq_true, decide_eq_true_eq] at h
+    by_cases hb : (bits == 64) = true
+    · left; simp [hb]
+    · right
+      simp only [hb, Bool.false_eq_true, if_false]
+      rcases h with h | h
+      · exact absurd h hb
+      · exact h
+
+/-- `validB` ⇒ the string of a `dec` line is a valid graph6 string of a supported order (the hypothesis of
+`C18_decode_valid` / `C18_string_roundtrip`): it is the format's encoding of the graph the decoder model answers -/
+theorem C18_valid_check (s : List Char) (h : C18.validB s = true) :
+    ∃ n adj, n ≤ 258047 ∧ s = (Spec.Graph6.graph6 n adj).map Char.ofNat := by
+  unfold C18.validB at h
+  split at h
+  · cases h
+  · next order es _ =>
+    simp only [Bool.and_eq_true] at h
+    exact ⟨order, _, C18_order_check order h.1, (eq_of_beq h.2).symm⟩
+
+/-- `getterOkB` ⇒ `GetterOK`, the hypothesis of `C18_dot_parse_getters` -/
+theorem C18_getter_check (g : Dot.GraphView) (h : C18.getterOkB g = true) : DotP.GetterOK g := by
+  unfold C18.getterOkB at h
+  simp only [Bool.and_eq_true, List.all_eq_true] at h
+  exact ⟨h.1, h.2⟩
+
+/-- with `attrs=0` the view has empty getter strings: the hypothesis `NoAttrs` of `C18_dot_parse` -/
+theorem C18_noattrs_check (W : C18.WTable) (directed : Bool) (itNodes : List (Nat × Nat × List Char))
+    (itEdges : List (Nat × Nat × Nat × List Char)) : DotP.NoAttrs (C18.viewOf W directed itNodes itEdges false) := by
+  constructor <;> intro x hx <;> simp [C18.viewOf] at hx <;> obtain ⟨_, _, _, _, rfl⟩ := hx <;> rfl
+
+/-- `nodesMatchB` / `edgesMatchB` ⇒ the trait iterators list exactly the graph the harness built -/
+theorem C18_view_check (directed : Bool) (tn : List (Nat × Nat)) (te : List (Nat × Nat × Nat))
+    (itNodes : List (Nat × Nat × List Char)) (itEdges : List (Nat × Nat × Nat × List Char))
+    (h1 : C18.nodesMatchB itNodes tn = true) (h2 : C18.edgesMatchB directed itEdges te = true) :
+    (itNodes.map fun x => (x.1, x.2.1)).Perm tn ∧
+    (itEdges.map fun x => C18.orient directed (x.1, x.2.1, x.2.2.1)).Perm (te.map (C18.orient directed)) :=
+  ⟨List.isPerm_iff.1 h1, List.isPerm_iff.1 h2⟩
+
+/-- the checks are satisfiable by non-trivial inputs (and fail on the inputs they are there to exclude) -/
+example : C18.truthSimpleB 5 [(0, 2), (1, 3), (0, 4), (3, 4)] = true ∧ C18.truthSimpleB 5 [(0, 4), (0, 2)] = false ∧
+    C18.truthSimpleB 5 [(2, 2)] = false ∧ C18.bitmapRangeB 4 [(1, 3), (3, 2)] [1, 2, 3] = true ∧
+    C18.bitmapRangeB 3 [(1, 3)] [1, 2, 3] = false ∧ C18.fitsB "graph" 8 22 231 = true ∧ C18.fitsB "graph" 8 24 276 = false ∧
+    C18.getterOkB exGetters = true ∧ C18.getterOkB exInjection = false := by
+  decide
 
 end PetgraphModel.C18T
